@@ -199,3 +199,100 @@ def run(funcs, results):
             r = s.get('_0')
             good &= C('isinstance(r, e2.Enum) and 0 in r.meta', isinstance(r, e2.Enum) and 0 in r.meta)
     ob('hint_bit_unpack L3: for i in Index..omega: bottom iff y[i] != 0; then Ok(h)', good, f'{len(outs)} paths' + (' FAILED: ' + '; '.join(fails) if fails else ''))
+
+
+def run_pack(funcs, results):
+    """HintBitPack (Algorithm 20) on the real MIR of hint_bit_pack::<CTEST = false, K>: y zeroed first; for i in 0..k, for j in 0..256:
+    if h[i][j] != 0 { y[Index] := j; Index += 1 }; after each polynomial y[omega + i] := Index"""
+    tags = ['C08', 'C03']
+    fn = 'hint_bit_pack'
+    fails = []
+    def C(label, val):
+        if not val:
+            fails.append(label)
+        return bool(val)
+    def ob(name, ok, detail=''):
+        results.append({'name': name, 'tags': tags, 'verdict': 'holds' if ok else 'mismatch', 'detail': detail + (' FAILED: ' + '; '.join(fails) if fails else '')})
+        fails.clear()
+    f = funcs[fn]
+    P = {'CTEST': False}
+    E0, paths0 = skel.extract(funcs, fn, params=P)
+    heads = sorted({p.stop[5:] for p in paths0 if p.stop.startswith('loop:')})
+    Eh, ph = skel.extract(funcs, fn, params=P, stop=tuple(heads))
+    firsth = [p for p in ph if p.stop in heads]
+    if len(heads) != 2 or not firsth:
+        results.append({'name': 'hint_bit_pack: two loops identified', 'tags': tags, 'verdict': 'refused', 'detail': str(heads)}); return
+    outer = firsth[0].stop; inner = [h for h in heads if h != outer][0]
+    il = f.debug_of.get('index'); oul = f.debug_of.get('omega_u')
+    if not il or not oul:
+        results.append({'name': 'hint_bit_pack: locals index / omega_u', 'tags': tags, 'verdict': 'refused', 'detail': str(f.debug_of)}); return
+    st0 = dict(firsth[0].st)
+    # P0: output zeroed before anything else, Index = 0
+    pre_calls = [skel.short_callee(c['callee']) for c in firsth[0].calls]
+    zero_closure = [n for n in funcs if n.startswith('hint_bit_pack::{closure#') and funcs[n].ret == '()' and len(funcs[n].params) == 2 and funcs[n].params[1][1].strip() == '&mut u8']
+    okz = False
+    for zc in zero_closure:
+        Ez = e2.Exec(funcs, mode='bv')
+        res, obl = Ez.run(zc, [None, e2.Ref('cell', '&mut u8')], init={'cell': e2.Val(z3.BitVec('old', 8), 'u8')})
+        okz |= len(Ez.path_states) == 1 and Ez.concrete(Ez.path_states[0][1].get('cell')) == 0
+    good = C('for_each over iter_mut(y_bytes)', any(n.endswith('for_each') for n in pre_calls) and any('iter_mut' in n for n in pre_calls))
+    good &= C('the for_each closure stores 0', okz)
+    good &= C('Index starts at 0', Eh.concrete(st0.get(il)) == 0)
+    ob('hint_bit_pack P0: y <- 0^(omega+k), Index <- 0', good)
+    omega = z3.BitVec('arg:omega', 32); om64 = z3.ZeroExt(32, omega)
+    K = z3.BitVec('param:K', 64)
+    Y = z3.Array('Yp', z3.BitVecSort(64), z3.BitVecSort(8))
+    ylen = z3.BitVec('len(y_bytes)', 64)
+    index = z3.BitVec('index', 64)
+    inv = [omega >= 1, omega < 256, K >= 1, z3.ULT(K, 256), z3.ULT(om64 + K, 256), ylen == om64 + K, z3.ULE(index, om64)]
+
+    def segment(start, base, extra=None):
+        Ex = e2.Exec(funcs, mode='bv', inline=set(), params=P); Ex.cut_loops = True; Ex.lazy_arrays = True
+        st = dict(base); st.pop('@stop', None); st.pop('@trail', None); st['@calls'] = ()
+        st[il] = e2.Val(index, 'usize'); st[oul] = e2.Val(om64, 'usize')
+        st['@arrays'] = {'y_bytes': Y}
+        if extra:
+            st.update(extra)
+        res, obl = Ex.run(fn, [], init=st, start=start, stop=(outer, inner))
+        outs = [(pc, s, s.get('@stop')) for pc, s in res if isinstance(s, dict)]
+        outs += [(pc, s, 'return') for pc, s in Ex.path_states if isinstance(s, dict) and s.get('@stop') is None]
+        return Ex, outs, obl
+
+    # outer head: Some(i) -> enter the inner loop (first arrival at inner head); None -> return
+    Ex, outs, obl = segment(outer, st0)
+    names = [k for k in Ex.inputs if 'Iterator::next' in k and k.endswith('@Some.0')]
+    to_inner = [o for o in outs if o[2] == inner]
+    rets = [o for o in outs if o[2] == 'return']
+    good = C('outer loop has enter and exit paths', bool(names) and len(to_inner) >= 1 and len(rets) >= 1)
+    rng = [c for c in Eh.call_records.values() if 'into_iter' in c['callee'] and 'start: 0, end: |param:K|' in c['args'][0]]
+    good &= C('outer loop ranges over 0..k', bool(rng))
+    ob('hint_bit_pack P3: for i in 0..k; returns after the last polynomial', good)
+    if not to_inner:
+        return
+    i = Ex.inputs[names[0]].t
+    base_in = to_inner[0][1]
+    # inner iteration from an arbitrary (j, Index)
+    Ex, outs, obl = segment(inner, base_in)
+    jn = [k for k in Ex.inputs if 'Iterator::next' in k and k.endswith('@Some.0')]
+    cont = [o for o in outs if o[2] == inner]
+    leave = [o for o in outs if o[2] == outer]
+    good = C('inner loop has continue and exit paths', bool(jn) and len(cont) >= 2 and len(leave) >= 1)
+    if good:
+        j = Ex.inputs[jn[0]].t
+        hsym = [v for k, v in Ex.inputs.items() if isinstance(v, e2.Val) and not isinstance(v, (e2.Ref, e2.Opaque)) and v.ty == 'i32' and (k.startswith('h[') or k.startswith('mem:h['))]
+        good &= C('reads h[i][j]', len(hsym) == 1)
+        if hsym:
+            hij = hsym[0].t
+            pre = inv + [z3.ULT(i, K), z3.ULT(j, 256), z3.Implies(hij != 0, z3.ULT(index, om64))]
+            kk = z3.BitVec('k', 64)
+            for pc, s, _ in cont:
+                Y1 = s['@arrays']['y_bytes']; idx1 = s[il].t
+                want_y = z3.If(hij != 0, z3.Store(Y, index, z3.Extract(7, 0, j)), Y)
+                good &= C('y[Index] := j and Index += 1 exactly when h[i][j] != 0', prove(*pre, pc, z3.Or(z3.Select(Y1, kk) != z3.Select(want_y, kk), idx1 != z3.If(hij != 0, index + 1, index))))
+            for o in obl:
+                good &= C('no panic: ' + o['msg'][:40], prove(*pre, o['cond']))
+            for pc, s, _ in leave:
+                Y1 = s['@arrays']['y_bytes']
+                good &= C('after the polynomial: y[omega + i] := Index', prove(*inv, z3.ULT(i, K), pc, z3.Or(z3.Select(Y1, kk) != z3.Select(z3.Store(Y, om64 + i, z3.Extract(7, 0, index)), kk), s[il].t != index)))
+        rng = [c for c in Ex.call_records.values() if 'into_iter' in c['callee']] + [c for c in base_in.get('@calls', ()) and [] or []]
+    ob('hint_bit_pack P1/P2: for j in 0..256: if h[i][j] != 0 { y[Index] := j; Index += 1 }; then y[omega + i] := Index', good, f'{len(cont)} continue, {len(leave)} exit paths')
